@@ -19,7 +19,9 @@ META = {
   "handles alternate; capacities, size arguments, lengths and data are symbolic",
   "hist_*: at every memcpy/memset range inside the segment the lock semaphore PUBLISHED under the name must be taken (one lock for all handles); "
   "*_other_handle_excluded: at the first segment access of an operation the other process runs an operation through the other handle, whose p_shm_lock must block",
-  "allocator never fails (C18), no EINTR (C19), printf empty"],
+  "oom_second_open_keeps_existing_buffer: script of harness/C20_ipc.c (shared with C18/C20) with a live first handle holding data; the allocator fails at a symbolic request index of the second p_shm_buffer_new",
+  "shmbuffer_reentrant / shmbuffer_names: see C07 reentrant_* and C06 names_len*_realkey",
+  "allocator fails only in oom_* (rest: C18), no EINTR (C19), printf empty"],
  "outside": ["ring moduli above 9 (quick) / 17 (thorough) in step_*, capacities above 4 in hist_* (the arithmetic is modulus generic)",
              "interleavings of concurrent readers/writers inside one operation: atomicity is reduced to 'every segment access happens with the PShm lock held and the lock is "
              "released on every exit path' (step_*) plus the lock's mutual exclusion (C07)",
@@ -65,9 +67,22 @@ def names(tier):
     qs = [C06.names(n, kind=2) for n in ([51] if tier == "quick" else [1, 50, 51, 64, 100])]
     for q in qs: q.name = "shmbuffer_" + q.name
     return qs
+def oom_open_existing():
+    # allocation failure (symbolic request index, incl. the final PShmBuffer allocation) while a SECOND handle is opened on an existing buffer
+    # with data in it: the failed open must leave the buffer linked, the first handle's data readable, a further open attached to it
+    # (script shared with C18/C20: harness/C20_ipc.c)
+    import C20_ipc
+    q = C20_ipc.script(2, "ALLOC", "C08")
+    q.name = "oom_second_open_keeps_existing_buffer"
+    q.hdefs = list(q.hdefs) + ["PRE_ONLY=1"]
+    return q
+def reentrant(tier):
+    # two threads create buffers with different names, overlapping at allocator entries of the first call's key derivation (harness shared with C07)
+    import C07
+    return [C07.reentrant(2, k) for k in ([3, 9] if tier == "quick" else range(1, 11))]
 def queries(tier):
     if tier == "quick":
-        return names(tier) + [step(op, 9) for op in range(5)] + \
+        return names(tier) + reentrant(tier) + [oom_open_existing()] + [step(op, 9) for op in range(5)] + \
                [hist("wr", 0, 4), hist("wr", 1, 4), hist("wwr", 0, 4), hist("wcu", 1, 4), hist("wfr", 1, 4), hist("w", 0, 4, nest=True), hist("r", 1, 4, nest=True), hist("w", 1, 4, demo=True)]
     seqs = [a + b for a in "wrcfu" for b in "wrcfu" if "w" in a + b] + ["wwr", "wrw", "wrr", "wcw", "wwc"]
-    return names(tier) + [step(op, 17) for op in range(5)] + [hist(s, st, 4) for s in seqs for st in (0, 1)] + [hist(o, st, 4, nest=True) for o in "wrcfu" for st in (0, 1)] + [hist("w", 1, 4, demo=True)]
+    return names(tier) + reentrant(tier) + [oom_open_existing()] + [step(op, 17) for op in range(5)] + [hist(s, st, 4) for s in seqs for st in (0, 1)] + [hist(o, st, 4, nest=True) for o in "wrcfu" for st in (0, 1)] + [hist("w", 1, 4, demo=True)]
